@@ -30,7 +30,8 @@ def bv(v, w):
     return z3.BitVecVal(v, w)
 
 
-def compile_ir(repo="/repo", workdir=None, extra_flags=()):
+def compile_ir(repo=None, workdir=None, extra_flags=()):
+    repo = repo or os.environ.get("GTWRAP_REPO", "/repo")
     d = workdir or tempfile.mkdtemp(prefix="verif_ll_")
     src = os.path.join(d, "k.cpp")
     with open(src, "w") as f:
